@@ -33,6 +33,9 @@ var vParamSets = []ParametersLiteral{
 	// 61-bit Q primes (overflow margin 8) with 59-bit P primes (margin 32): the lazy accumulators of the gadget
 	// product must be reduced every 4 digits modulo Q and every 16 modulo P
 	{LogN: 4, Q: []uint64{2305843009213616129, 2305843009213554689, 2305843009213501441, 2305843009213489153, 2305843009213444097, 2305843009213317121, 2305843009213243393, 2305843009213173761}, P: []uint64{576460752303419393, 576460752303415297}, NTTFlag: true},
+	// moduli of unequal bit-sizes: four 61-bit primes below a 30-bit prime at the top level (the overflow margin of the
+	// lazy accumulators is the margin of the LARGEST prime at or below the level), one 59-bit P
+	{LogN: 4, Q: []uint64{2305843009213616129, 2305843009213554689, 2305843009213501441, 2305843009213489153, 1073479681}, P: []uint64{576460752303419393}, NTTFlag: true},
 }
 
 // vNativeParamSets mirror the shapes of vParamSets with realistic prime sizes: the native replay of a harness runs on
@@ -48,6 +51,9 @@ var vNativeParamSets = []ParametersLiteral{
 	// 61-bit Q primes (overflow margin 8) with 59-bit P primes (margin 32): the lazy accumulators of the gadget
 	// product must be reduced every 4 digits modulo Q and every 16 modulo P
 	{LogN: 8, Q: []uint64{2305843009213616129, 2305843009213554689, 2305843009213501441, 2305843009213489153, 2305843009213444097, 2305843009213317121, 2305843009213243393, 2305843009213173761}, P: []uint64{576460752303419393, 576460752303415297}, NTTFlag: true}, // natively N=256: the inverse NTT of an unreduced accumulator wraps only from 5 stages on
+	// moduli of unequal bit-sizes: four 61-bit primes below a 30-bit prime at the top level (the overflow margin of the
+	// lazy accumulators is the margin of the LARGEST prime at or below the level), one 59-bit P
+	{LogN: 8, Q: []uint64{2305843009213616129, 2305843009213554689, 2305843009213501441, 2305843009213489153, 1073479681}, P: []uint64{576460752303419393}, NTTFlag: true},
 }
 
 // VerifSetup_Ctx builds the objects of parameter set i natively (keys are allocated, not yet generated);
